@@ -308,7 +308,13 @@ def scratch_root():
 
 @contextlib.contextmanager
 def sandbox(prefix="tv"):
-    path = tempfile.mkdtemp(prefix=prefix + "-", dir=scratch_root())
+    """A scratch directory. The SAME path is handed out again for the next case of this
+    process (emptied in between), on purpose: state that the implementation keeps per path
+    (caches keyed by path, size or whole-second mtime) then shows up as a difference between
+    consecutive cases instead of hiding behind ever-fresh directory names."""
+    path = os.path.join(scratch_root(), f"{prefix}-{os.getpid()}")
+    shutil.rmtree(path, ignore_errors=True)
+    os.makedirs(path)
     try:
         yield path
     finally:
